@@ -55,6 +55,7 @@ func u16f(name string, field uint8, ctor func(uint16) *of.MatchField) FieldGen {
 		return ctor(v), oxmNode(cOF, field, be16b(v), nil)
 	}}
 }
+
 // The address constructors take their value (and mask) by reference. A caller
 // builds several fields from one address object - the same host in a /24 rule
 // and in an exact-match rule -, so in a third of the cases the same objects are
